@@ -85,9 +85,16 @@ POOL = ["ret", "nop", "push rax", "clc", "nop2", "xor eax, eax", "push r8", "add
         "add qword [rax+rcx*4+0x12345], 0x12345678", "add qword [eax+ecx*4+0x12345], 0x12345678", "mov qword [eax+ecx*4+0x12345], 0x12345678",
         "mov qword [r8d+r9d*4+0x12345], 0x12345678", "imul r8, [r8d+r9d*4+0x12345], 0x12345678", "add qword [r8d+r9d*4+0x12345], 0x12345678",
         "vpaddb ymm1, ymm2, ymm3", "vperm2i128 ymm1, ymm2, [rax+rcx*4+0x12345], 0x5", "paddb xmm1, xmm2", "mulx r8, r9, [rsi]", "cmovne rax, r11",
-        "shl rax, 0x5", "movq xmm1, rax", "jmp 0x4", "jne -0x1000", "call rax", "push 0x5", "imul rax, rcx, 0x5", "setc al", "bzhi rax, rcx, rdx"]
+        "shl rax, 0x5", "movq xmm1, rax", "jmp 0x4", "jne -0x1000", "call rax", "push 0x5", "imul rax, rcx, 0x5", "setc al", "bzhi rax, rcx, rdx",
+        # literals beyond 64 bits (accepted and clamped by the library: whatever they do, they must not influence later lines or calls)
+        "add rcx, 0x1ffffffffffffffff", "push 99999999999999999999999", "mov rax, [rbx+0x10000000000000000]"]
 BADLINES = ["bogus rax", "mov [rax], [rbx]", "add rax, rxx", "lea rax, [rsp+rsp]"]
-OPTSENS = ["mov rax, 0x5", "mov rax, 0x0000000000000005", "lea rcx, [rax+rsp]", "lea rcx, [2*rax]", "mov rdx, 1234", "lea rcx, [4*rdx+0x10]"]
+OPTSENS = ["mov rax, 0x5", "mov rax, 0x0000000000000005", "lea rcx, [rax+rsp]", "lea rcx, [2*rax]", "mov rdx, 1234", "lea rcx, [4*rdx+0x10]",
+           "add qword [rax+rsp], 5", "add qword [2*rax], 5", "mov dword [2*rcx], 100", "imul rax, [rbx+rsp], 10", "add qword [rax+rsp], 0x5", "cmp byte [8*rdx], 7"]
+# the option dimensions each of these lines may depend on (C12: one dimension never changes what another one governs)
+DIMS = {"mov rax, 0x5": ["mov"], "mov rax, 0x0000000000000005": ["mov"], "lea rcx, [rax+rsp]": ["swap"], "lea rcx, [2*rax]": ["nobase"], "mov rdx, 1234": ["mov"],
+        "lea rcx, [4*rdx+0x10]": ["nobase"], "add qword [rax+rsp], 5": ["swap"], "add qword [2*rax], 5": ["nobase"], "mov dword [2*rcx], 100": ["nobase"],
+        "imul rax, [rbx+rsp], 10": ["swap"], "add qword [rax+rsp], 0x5": ["swap"], "cmp byte [8*rdx], 7": ["nobase"]}
 
 
 class Lines:
@@ -468,7 +475,18 @@ def validate(results, L, shards=None):
         used = {k for sc, evs in part for e in evs for k in e.get("prog", ())}
         codes = {k: v for k, v in L.codes.items() if k in used or len(L.codes) < 200}
         with open(tr, "w") as f:
+            sens = []
+            if si == 0 and hasattr(L, "text"):
+                # which option dimensions may change the code of a pool line (everything else in the pool: none)
+                for k, t in L.text.items():
+                    if k in L.codes:
+                        sens.append({"e": "Sens", "sid": "pool", "key": k, "dims": DIMS.get(t, []), "text": t})
+                for k in L.codes:
+                    codes.setdefault(k, L.codes[k])
             f.write(json.dumps({"e": "Codes", "codes": codes}) + "\n")
+            for e in sens:
+                f.write(json.dumps(e) + "\n")
+                n += 1
             for sc, evs in part:
                 for e in evs:
                     f.write(json.dumps(e) + "\n")
@@ -539,6 +557,10 @@ def run(prop, tier, replay=None):
         rp = json.load(open(replay))
         if rp["sid"].startswith(("test-", "cli-")):
             recorded_sid = rp["sid"]        # a recorded client run: recorded again below
+        elif rp["sid"] == "pool":
+            sc = Script("pool-carrier")     # the learned code table is judged with the first shard of any validation
+            sc.create(1, "int", 0); sc.destroy(1)
+            scripts = [sc]
         else:
             sc = Script(rp["sid"])
             sc.lines, sc.meta = rp["script"], rp["meta"]
@@ -573,10 +595,12 @@ def run(prop, tier, replay=None):
         nrand = nq if tier == "quick" else nt
         for k in range(nrand):
             scripts.append(random_history("%s-r%d" % (prop, k), L, rnd, flavour))
-        if prop == "C08":
-            scripts += c08_boundary(L, rnd, tier)
+        if prop in ("C08", "C06"):
+            scripts += [x for x in c08_boundary(L, rnd, tier) if prop == "C08" or x.sid.startswith("C08-s")]
         if prop == "C13":
             scripts += c13_boundary(L, rnd, tier)
+        if prop == "C07":
+            scripts += c07_boundary(L, rnd, tier)
         if prop == "C19":
             scripts += c19_scripts(L, rnd, tier)
     results = execute(scripts, L)
@@ -605,6 +629,9 @@ def run(prop, tier, replay=None):
 def finish(prop, tier, t0, results, L, stats_all, viol_model, replay, extra_cov=None, level=None, rule=None, nontrivial=None):
     bad, judged = validate(results, L)
     bysid = {sc.sid: (sc, evs) for sc, evs in results}
+    import rectrace as _R
+    bysid["pool"] = (_R.Sc("pool", ["learned code table of the pool lines (12 option combinations each)"]),
+                     [{"e": "Sens", "key": k, "text": t, "dims": DIMS.get(t, []), "codes": L.codes.get(k)} for k, t in getattr(L, "text", {}).items()])
     mine, drift, others = [], collections.Counter(), collections.Counter()
     for sid, reason, evname in bad:
         if reason.startswith("mech:") or reason.startswith("driver:"):
@@ -720,6 +747,27 @@ def c08_boundary(L, rnd, tier):
                         # jump over the body: the code starts with the body, so append "mov rax, v ; ret" and execute only when the body is nops
                         pass
                     out.append(sc)
+    # a call that STARTS inside the last 20 bytes of the mapped buffer (the previous call ended there, or asm_set_offset put it there)
+    small = [L.bylen[3][0], L.bylen[1][0], L.bylen[7][0] if L.bylen.get(7) else L.bylen[3][0]]
+    for mult in mults:
+        for P in range(mult * 6000 - 3, mult * 6000 + 24, 1 if tier == "thorough" else 2):
+            for mode in ("plain", "fit", "count"):
+                for how in ("calls", "offset"):
+                    if how == "offset" and (mult > 1 or P > 6020):
+                        continue      # an offset beyond the mapped buffer is the caller's business
+                    sc = Script("C08-s%d" % n); n += 1
+                    sc.create(1, "int", 0)
+                    if how == "calls":
+                        sc.mirror(1)
+                        body = build(P)
+                        sc.asm(1, body, [L.text[x] for x in body])
+                    else:
+                        sc.offset(1, P)   # (no mirror: the bytes below P were never written)
+                    if mode == "fit":
+                        sc.chunk(1, 16)
+                    sc.asm(1, small, [L.text[x] for x in small], count=(16 if mode == "count" else None))
+                    sc.asm(1, small[:1], [L.text[x] for x in small[:1]])
+                    out.append(sc)
     # executable programs: nops, then mov rax, v ; ret, across a growth
     if tailkey:
         for mult in mults:
@@ -762,6 +810,28 @@ def c13_boundary(L, rnd, tier):
                 k1 = rnd.choice(L.bylen[ln]); k2 = rnd.choice(L.bylen[rnd.choice(lens)])
                 sc.asm(1, [k1, k2], [L.text[k1], L.text[k2]], twin=True)
                 out.append(sc)
+    return out
+
+
+def c07_boundary(L, rnd, tier):
+    """chunk fitting next to the end of a caller buffer: every instruction length x padding length (1 .. the longest, i.e. more
+    than one NOP) with the write position within a few bytes of the 20-byte reserve, on buffers whose end lies right behind"""
+    out, n = [], 0
+    lens = [x for x in sorted(L.bylen) if x >= 2]
+    deltas = range(-3, 4) if tier == "thorough" else (-2, 0, 1, 2)
+    for ln in lens:
+        for free in sorted({1, 2, ln - 1, 11, 12} & set(range(1, ln))):        # padding of `free` bytes, then the instruction
+            for c in sorted({ln + 1, 16, 17, 24, 32} & set(range(max(ln + 1, free + 1), 65))):
+                p0 = (c - free) % c + c
+                for d in deltas:
+                    cap = p0 + 20 + d
+                    sc = Script("C07-b%d" % n); n += 1
+                    sc.create(1, "ext", cap)
+                    sc.chunk(1, c)
+                    sc.offset(1, p0)
+                    k1 = L.bylen[ln][n % len(L.bylen[ln])]
+                    sc.asm(1, [k1], [L.text[k1]])
+                    out.append(sc)
     return out
 
 
